@@ -330,7 +330,14 @@ class Exec:
         """sparse = the rejection loop delivered; dense = fell through to random.sample(fullset, m)"""
         self.run()
         if isinstance(self.exc, OverflowError):
-            return "overflow"
+            # where it was raised (function names of the traceback, not the message): inside the dense enumeration
+            # (known finding C13-H1) or anywhere else
+            names, tb = set(), self.exc.__traceback__
+            while tb is not None:
+                names.add(tb.tb_frame.f_code.co_name)
+                tb = tb.tb_next
+            dense = names & {"all_clauses", "all_good_parities"}
+            return "overflow-dense" if dense and self.info["n"] > SYS_MAXSIZE else "overflow"
         if self.exc is not None:
             return "error"
         ev = [e for e in self.events if e[0] != "seed"]
@@ -842,7 +849,7 @@ def search(ctx, case):
                 continue          # the known finding C13-H1 is not what broke the correspondence
             c = build("huge", cand)
             r = common.run_oracle(c)
-            if r is not None and c.ex.path() != "overflow":
+            if r is not None and c.ex.path() != "overflow-dense":
                 _SEARCHED[key] = {"suite": "huge", "info": cand, "failure": r}
                 return _SEARCHED[key]
         return None
